@@ -218,8 +218,9 @@ Proof.
     destruct (negb (sm_sent s =? v)) eqn:E.
     + destruct (b <=? 0).
       * (* refused *)
-        inversion H; subst; clear H. assert (Fl : RAISE_BEFORE_START_FRAME = false) by (destruct C as [C|C]; [exact C|exfalso; apply C; reflexivity]).
-        try rewrite Fl. split; [constructor; assumption|]. intros p k Hk. cbn [peer_see fold_left].
+        assert (Er : r = None) by (inversion H; reflexivity). subst r.
+        assert (Fl : RAISE_BEFORE_START_FRAME = false) by (destruct C as [C|C]; [exact C|exfalso; apply C; reflexivity]).
+        rewrite Fl in H. inversion H; subst; clear H. split; [constructor; assumption|]. intros p k Hk. cbn [peer_see fold_left].
         destruct (sget k ((sid, s) :: t)) as [s'|] eqn:G; [apply Hk; reflexivity|reflexivity].
       * destruct (raise_streams_b t (b - 1)) as [[t' w'] r'] eqn:R. inversion H; subst; clear H.
         destruct (IH ND' SS' NN' _ _ _ _ R C) as (I1 & I2).
